@@ -473,8 +473,7 @@ def gen_box_style(rng, ctx):
     if r() < 0.12:
         st.append('text-decoration:%s %s' % (rng.choice(['underline', 'overline', 'line-through', 'underline overline line-through']),
                                              rng.choice(['', 'wavy', 'dotted', 'double red', 'dashed'])))
-    # a form field whose font draws no glyph crashes build_fonts_dictionary (findings C02-e/f): with pdf_forms every
-    # field keeps the font of the body text
+    # (a form field whose font draws no glyph used to crash build_fonts_dictionary: F95/F96, fixed)
     if ctx.get('fonts_ok', True):
         if r() < 0.08:
             st.append('font-size:%s' % rng.choice(['6px', '14px', '0', '20px', '1px']))
@@ -583,7 +582,7 @@ def gen_doc(rng, opts):
     margin = rng.choice([0, 5, 10, 20])
     # pdf/ua marks content: avoid opacity together with scale(0) there (F29)
     variant = opts.get('pdf_variant')
-    ctx = {'n': 0, 'ids': [], 'marked': variant == 'pdf/ua-1', 'fonts_ok': not opts.get('pdf_forms'), 'low': low_version(opts)}
+    ctx = {'n': 0, 'ids': [], 'marked': variant == 'pdf/ua-1', 'fonts_ok': True, 'low': False}   # F95/F96 fixed (01e6bdd, f790265): no avoidance
     page_extra = ''
     if rng.random() < 0.25:
         page_extra += '@top-center{content:"p " counter(page);color:%s}' % _c(rng)
@@ -633,7 +632,7 @@ INVISIBLE = ['&#x200b;', '&#x200d;', '&shy;', '&lrm;', '&#xfeff;', '&#x2060;', '
 
 
 def low_version(opts):
-    """PDF <= 1.4 builds a CIDSet from font.widths: a font that shows no glyph crashes there (open finding F95)"""
+    """PDF <= 1.4 builds a CIDSet from font.widths: a font that shows no glyph crashes there (finding F95, fixed in 01e6bdd)"""
     v = opts.get('pdf_version') or ('1.4' if opts.get('pdf_variant') == 'pdf/a-1b' else None)
     return v is not None and str(v) <= '1.4'
 
@@ -642,23 +641,21 @@ def gen_font_doc(rng, opts):
     """A small document in which some font is used in an unusual way only: by a run without visible glyph, in
     generated content, in a margin box, inside an SVG, inside a form field, inside an opacity group or a pattern,
     for a single glyph, with letter/word spacing.  Every font selected by a Tf must still be in the /Font dictionary
-    of the resources in effect.  Avoids the open crash sites F95 (no glyph shown + PDF <= 1.4) and F96 (bitmap font
-    without glyph)."""
+    of the resources in effect.  The former crash sites F95 (no glyph shown + PDF <= 1.4) and F96 (bitmap font
+    without glyph) are fixed and exercised here."""
     base = rng.choice(['weasyprint', 'weasyprint', 'DejaVu Sans'])
-    low = low_version(opts)
+    low = False          # F95 fixed in 01e6bdd: glyph-less fonts are exercised at every PDF version
     forms = bool(opts.get('pdf_forms'))
 
     def other(bitmap_ok=True):
-        fam = rng.choice([f for f in FAMILIES if f != base and (bitmap_ok or f != 'weasyprint-otb')])
+        fam = rng.choice([f for f in FAMILIES if f != base])          # F96 fixed in f790265: bitmap fonts everywhere
         extra = ''
         if fam.startswith('DejaVu') and rng.random() < 0.4:
             extra = rng.choice([';font-weight:bold', ';font-style:italic', ';font-weight:bold;font-style:italic'])
         return 'font-family:%s%s' % (fam, extra)
 
     def invisible(font):
-        # bitmap font: a character it does not cover makes chars[] empty (F96)
-        pool = [t for t in INVISIBLE if not ('otb' in font and 'e000' in t)]
-        return rng.choice(pool)
+        return rng.choice(INVISIBLE)
 
     css, body = [], []
     npat = rng.choice([1, 1, 2, 3])
@@ -681,13 +678,12 @@ def gen_font_doc(rng, opts):
             css.append('@page{@%s{content:%s;%s}}' % (rng.choice(['top-center', 'bottom-left', 'left-middle', 'top-right-corner']), content, f))
         elif k == 'svg':
             fam = f.split(':')[1].split(';')[0]
-            txt = rng.choice(['a', 'ab c', '&#x200b;' if not low and fam != 'weasyprint-otb' else 'b', ' '])
+            txt = rng.choice(['a', 'ab c', '&#x200b;', '&#xe000;', ' '])
             body.append("<img src=\"data:image/svg+xml,<svg xmlns='http://www.w3.org/2000/svg' width='60' height='20'>"
                         "<text x='2' y='12' font-size='10' font-family='%s'%s>%s</text></svg>\">" % (
                             fam, rng.choice(['', " font-weight='bold'", " text-anchor='middle'", " opacity='.5'"]), txt))
         elif k == 'field':
-            # a field font that shows no glyph elsewhere: fine above PDF 1.4 with an outline font (F95/F96 otherwise)
-            ff = other(bitmap_ok=False) if (forms and not low) else ('font-family:%s' % base if forms else f)
+            ff = other()        # a field font that shows no glyph elsewhere, outline or bitmap
             body.append(rng.choice(['<input value="v" style="%s">', '<textarea style="%s">t</textarea>',
                                     '<select style="%s"><option>o</option></select>', '<form><input type=checkbox checked style="%s"></form>']) % ff)
         elif k == 'group':
